@@ -316,6 +316,114 @@ func (g *gen) smallExpr(depth int, allowTags []string, data bool, bound int) *sl
 	}
 }
 
+// subQuery builds a query of the restricted sub-query shapes the engine accepts: filters of ONE named
+// sub-query (`@sub:key:value`, a conjunct of its own), main-query number / time / protocol / host terms
+// that refer to the sub-query's stream through `@sub:attr@` (with offsets, ranges, masks), and an ordinary
+// main expression. The relating term stands at the top-level AND, so every alternative of the normal form
+// keeps the reference (a sub-query nobody refers to is not evaluated by the engine).
+func (g *gen) subQuery(tags []string) *slib.Node {
+	r := g.r
+	const sq = "sub"
+	kids := []*slib.Node{}
+	// filters of the sub-query
+	for i, n := 0, r.Intn(3); i < n; i++ {
+		var t *slib.Node
+		for {
+			t = g.term(nil, false)
+			if p, _ := dnfSize(t); p <= 2 && !hasVar(t) {
+				break
+			}
+		}
+		t.Sub = sq
+		if r.Chance(1, 5) {
+			t = &slib.Node{Op: "not", Kids: []*slib.Node{t}}
+		}
+		kids = append(kids, t)
+	}
+	// terms relating the main stream to the sub-query's stream
+	offs := []int64{0, 0, 0, 1, -1, 2, -2, 7, -7, 3600, -3600}
+	rel := func() *slib.Node {
+		switch r.Intn(8) {
+		case 0, 1, 2, 3: // times
+			key := lib.Pick(r, []string{"ftime", "ltime", "time", "ftime", "ltime"})
+			v := sq + ":" + lib.Pick(r, []string{"ftime", "ltime"})
+			o := lib.Pick(r, offs)
+			var rg slib.Range
+			switch r.Intn(4) {
+			case 0:
+				rg = slib.Range{Lo: slib.I64(o), LoVar: v}
+			case 1:
+				rg = slib.Range{Hi: slib.I64(o), HiVar: v}
+			case 2:
+				rg = slib.Range{Lo: slib.I64(o), LoVar: v, Hi: slib.I64(o + int64(r.Intn(3))), HiVar: v}
+			default:
+				rg = slib.Range{Lo: slib.I64(o), LoVar: v, Hi: slib.I64(o), HiVar: v}
+			}
+			return &slib.Node{Op: "term", Key: key, Times: []slib.Range{rg}}
+		case 4, 5: // numbers
+			key := lib.Pick(r, []string{"cport", "sport", "id", "cbytes", "sbytes", "port"})
+			v := sq + ":" + lib.Pick(r, map[string][]string{"cport": {"cport", "sport"}, "sport": {"sport", "cport"}, "port": {"sport"},
+				"id": {"id"}, "cbytes": {"cbytes", "sbytes"}, "sbytes": {"sbytes", "cbytes"}}[key])
+			o := lib.Pick(r, []int64{0, 0, 1, -1, 2, 920, -920})
+			var rg slib.Range
+			switch r.Intn(3) {
+			case 0:
+				rg = slib.Range{Lo: slib.I64(o), LoVar: v}
+			case 1:
+				rg = slib.Range{Hi: slib.I64(o), HiVar: v}
+			default:
+				rg = slib.Range{Lo: slib.I64(o), LoVar: v, Hi: slib.I64(o), HiVar: v}
+			}
+			return &slib.Node{Op: "term", Key: key, Nums: []slib.Range{rg}}
+		case 6:
+			ps := []string{"@" + sq + ":protocol@"}
+			if r.Chance(1, 4) {
+				ps = append(ps, "udp")
+			}
+			return &slib.Node{Op: "term", Key: "protocol", Protos: ps}
+		default:
+			h := slib.HostPat{Var: sq + ":" + lib.Pick(r, []string{"chost", "shost"})}
+			if r.Chance(1, 2) {
+				h.Masks = []int{lib.Pick(r, []int{8, 16, 24, 31, 32, -8, 64, 128})}
+			}
+			return &slib.Node{Op: "term", Key: lib.Pick(r, []string{"chost", "shost", "host"}), Hosts: []slib.HostPat{h}}
+		}
+	}
+	top := rel()
+	if r.Chance(1, 6) {
+		top = &slib.Node{Op: "not", Kids: []*slib.Node{top}}
+	}
+	kids = append(kids, top)
+	if r.Chance(1, 3) {
+		x := rel()
+		if r.Chance(1, 3) {
+			x = &slib.Node{Op: "or", Kids: []*slib.Node{x, g.term(nil, false)}}
+		}
+		kids = append(kids, x)
+	}
+	if r.Chance(2, 3) {
+		kids = append(kids, g.smallExpr(1, tags, true, 6))
+	}
+	// AND order is free
+	for i := len(kids) - 1; i > 0; i-- {
+		j := r.Intn(i + 1)
+		kids[i], kids[j] = kids[j], kids[i]
+	}
+	if len(kids) == 1 {
+		return kids[0]
+	}
+	return &slib.Node{Op: "and", Kids: kids}
+}
+
+func hasVar(n *slib.Node) bool {
+	for _, rg := range append(append([]slib.Range(nil), n.Nums...), n.Times...) {
+		if rg.LoVar != "" || rg.HiVar != "" {
+			return true
+		}
+	}
+	return false
+}
+
 func genCase(r *lib.RNG, wide bool) *Case {
 	g := &gen{r: r, wide: wide, c: &Case{}}
 	tagSize = map[string]int{}
@@ -372,6 +480,17 @@ func genCase(r *lib.RNG, wide bool) *Case {
 		}
 	}
 	c.Files = files
+	// index files far apart in time get different reference times (a file's reference time is the second
+	// of its earliest first packet): shift all streams of a file by 0 s, 7 s or an hour
+	if len(c.Files) > 1 && r.Chance(1, 3) {
+		for _, f := range c.Files {
+			sh := int64(lib.Pick(r, []int{0, 0, 7, 3600})) * 1000
+			for _, vi := range f {
+				c.Versions[vi].FTms += sh
+				c.Versions[vi].LTms += sh
+			}
+		}
+	}
 
 	// tags: tag i may only refer to tags < i
 	ntags := r.Intn(4)
@@ -405,6 +524,9 @@ func genCase(r *lib.RNG, wide bool) *Case {
 		names = append(names, tagNames[i])
 	}
 	c.Query = g.smallExpr(2+r.Intn(2), names, true, 24)
+	if r.Chance(1, 4) {
+		c.Query = g.subQuery(names)
+	}
 	if ntags >= 4 && r.Chance(1, 2) {
 		// the shape of DESIGN F6: a conjunction of many (uncertain) tags
 		k := []*slib.Node{}
@@ -498,6 +620,10 @@ type outLine struct {
 	More    bool           `json:"more"`
 	Err     string         `json:"err,omitempty"`
 	Query   string         `json:"query,omitempty"`
+	// regime information for the evidence
+	SubQuery bool    `json:"subquery,omitempty"` // the query relates the main stream to a sub-query stream
+	FileRefs []int64 `json:"filerefs,omitempty"` // reference time (unix s) of every index file, oldest first
+	SubCross bool    `json:"subcross,omitempty"` // some match is only witnessed by sub-query streams of OTHER index files
 }
 
 // keyLess: the documented ordering of one sort term (ascending).
@@ -652,6 +778,12 @@ func (rn *runner) runCase(c *Case) (out outLine) {
 	skip := c.Page * c.Limit
 	res, more, _, err := index.SearchStreams(context.Background(), readers, limitIDs, refTime, q.Conditions, nil, q.Sorting, c.Limit, skip, tagDetails, convs, false)
 	if err != nil {
+		if strings.Contains(err.Error(), "not yet fully supported") || strings.Contains(err.Error(), "not supported") {
+			// a shape the engine refuses: an outcome of its own, nothing to compare
+			out.Err = "rejected"
+			out.SubQuery = len(c.Query.SubQueryNames()) != 0
+			return
+		}
 		out.Err = "error"
 		rn.complain("SearchStreams(%q) failed: %v", text, err)
 		return
@@ -678,13 +810,19 @@ func (rn *runner) runCase(c *Case) (out outLine) {
 		}
 		return false
 	}
-	sat := func(v *slib.StreamV) bool { return allowed(v.ID) && env.Eval(c.Query, v) }
-	matches := []*slib.StreamV{}
 	ids := []uint64{}
 	for id := range newest {
 		ids = append(ids, id)
 	}
 	sort.Slice(ids, func(i, j int) bool { return ids[i] < ids[j] })
+	visible := []*slib.StreamV{}
+	for _, id := range ids {
+		visible = append(visible, verOf[[2]uint64{uint64(newest[id]), id}])
+	}
+	// a sub-query name stands for some VISIBLE stream (any id: the id restriction is for the main query)
+	sat := func(v *slib.StreamV) bool { return allowed(v.ID) && env.EvalQuery(c.Query, v, visible) }
+	out.SubQuery = len(c.Query.SubQueryNames()) != 0
+	matches := []*slib.StreamV{}
 	for _, id := range ids {
 		v := verOf[[2]uint64{uint64(newest[id]), id}]
 		if sat(v) {
@@ -695,6 +833,22 @@ func (rn *runner) runCase(c *Case) (out outLine) {
 		out.Err = "oracle"
 		rn.complain("oracle cannot evaluate: %v", env.Err)
 		return
+	}
+	for _, r := range readers {
+		out.FileRefs = append(out.FileRefs, r.ReferenceTime.Unix())
+	}
+	if out.SubQuery {
+		for _, m := range matches {
+			same := []*slib.StreamV{}
+			for _, t := range visible {
+				if newest[t.ID] == newest[m.ID] {
+					same = append(same, t)
+				}
+			}
+			if !env.EvalQuery(c.Query, m, same) {
+				out.SubCross = true
+			}
+		}
 	}
 	keys := c.Sort
 	if len(keys) == 0 {
